@@ -244,7 +244,7 @@ func TestZZVerifC10(t *testing.T) {
 	run := core.NewRun("C10", "exploration",
 		"every conditional command type (KV cas/delete-cas directly and in a transaction; transaction node/service/check cas and delete-cas; config entry upsert-cas, upsert-with-status-cas, delete-cas; CA config CAS; CA root set CAS; composite CA roots+config (index cross product); autopilot CAS; ACL token batch CAS; ACL bootstrap reset index; feature-gate update) x pre-state {absent, present, re-written, deleted-and-recreated, after a PRNG pre-history} x supplied index {0, current, stale, previous-lifetime, future, index of another entity}: ENUMERATED. Oracle: matched (documented rule) <=> reported <=> applied, where applied/unchanged are decided by canonical dump equality with an unconditional twin / with the pre-state. non-trivial = case with a non-zero supplied index on an existing entity or a create-only on an absent one; distinct by (type, pre-state, index class)")
 	rng := core.NewRand(core.Seed())
-	randomPre := core.N(2, 40)
+	randomPre := core.N(10, 120)
 
 	for _, ct := range types() {
 		for ps := 0; ps < 4+randomPre; ps++ {
@@ -321,6 +321,15 @@ func TestZZVerifC10(t *testing.T) {
 				if su.name == "current" && !exists {
 					continue
 				}
+				// CA config: ModifyIndex 0 selects the UNconditional write by design of the command
+				if ct.name == "ca:set-config-cas" && su.v == 0 {
+					continue
+				}
+				// the autopilot configuration always exists in a running cluster (written by the leader at
+				// bootstrap); "CAS against no configuration" is not a state the command is defined for
+				if ct.name == "autopilot:cas" && !exists {
+					continue
+				}
 				if su.v == cur && su.name != "current" && su.name != "zero" {
 					continue
 				}
@@ -333,7 +342,7 @@ func TestZZVerifC10(t *testing.T) {
 				after := dump.Of(x.r.State())
 				y := build2(pre, idxs)
 				u := ct.uncond(7)
-				y.r.Apply(applyIdx, u.t, u.req)
+				ures := y.r.Apply(applyIdx, u.t, u.req)
 				twin := dump.Of(y.r.State())
 				x.r.Close()
 				y.r.Close()
@@ -341,6 +350,17 @@ func TestZZVerifC10(t *testing.T) {
 				run.Distinct("type", ct.name)
 				run.Distinct("case-class", ct.name+"|"+psName+"|"+su.name)
 
+				// the UNconditional write is itself refused (e.g. config-entry graph validation against the
+				// random pre-history): the command is rejected for a reason other than its condition
+				if _, uerr := ures.(error); uerr {
+					if _, cerr := res.(error); cerr || !ct.reported(res) {
+						run.Count("rejected-for-other-reason")
+						if len(dump.Compare(before, after, 1, nil)) != 0 {
+							run.Violation("C10:"+ct.name+":rejected-but-state-changed", ct.name+" was rejected ("+trunc(fsmkit.RenderResult(res, dump.Render), 120)+") but changed the state", map[string]any{"type": ct.name, "pre_state": psName})
+						}
+						continue
+					}
+				}
 				var matched bool
 				if ct.isDelete {
 					matched = exists && su.v == cur
